@@ -311,6 +311,10 @@ class Gen:
                      self.count_kind()),
             lambda: ("nonDelay", r),
             lambda: ("distance", r, rng.choice([0, 1, 2, 4]), rng.choice([None, None, ivs()]), self.count_kind()),
+            lambda: ("interrupted", r, list(dict.fromkeys(ivs()))),
+            lambda: ("periodicallyUnavailable", r, [(a, min(b_, a + 3)) for a, b_ in dict.fromkeys(ivs())][:2],
+                     rng.choice([5, 7, 10]), rng.choice([0, 0, 2, 7]), rng.choice([0, 0, 1, 3]),
+                     rng.choice([None, None, self.H(), 15])),
         ]
         ns = self.nselects()
         if ns >= 2:
@@ -432,7 +436,11 @@ class Gen:
         for _ in range(2):
             self.g_task()
         n = self.rng.randint(max(3, self.size // 2), self.size)
-        for _ in range(n):
+        early = self.rng.randrange(n) if (self.rng.random() < 0.25 and not self.simple) else -1
+        for i in range(n):
+            if i == early:
+                # the solver object may be constructed at any point before the problem is complete
+                self.emit({"op": "solver"})
             k = self.rng.choices(kinds, weights)[0]
             getattr(self, "g_" + k)()
         return self.script
